@@ -84,10 +84,10 @@ func main() {
 	if *mode == "orphan" {
 		for k := 0; k < c.Cases; k++ {
 			cr := newCase(fmt.Sprintf("o%d_%d", c.Seed, k), "orphan", *dir, tw, st)
-			orphanCase(cr, 1+k%3)
+			orphanCase(cr, 1+k%4)
 			cr.finish()
 			st.Inc("case:orphan")
-			st.Sample(fmt.Sprintf("orphan scenario %d: the process ends while a background child of it lives on in its group", 1+k%3))
+			st.Sample(fmt.Sprintf("orphan scenario %d: the process ends while a background child of it lives on in its group", 1+k%4))
 		}
 		return
 	}
